@@ -152,7 +152,8 @@ def gen_query(rng, world, heavy_w):
             q["kw"] = rng.choice([{}, {}, {"p_limits": [0.05, 0.3]}, {"branch": "des"}, {"p_limits": [0.5, 0.1]}])
         elif what == "t_plot":
             q["kw"] = rng.choice([{}, {"thickness_model": "Halsey"}, {"thickness_model": "SiO2 Jaroniec/Kruk/Olivier"},
-                                  {"thickness_model": "carbon black Kruk/Jaroniec/Gadkaree"}, {"t_limits": [0.3, 0.8]}, {"thickness_model": "nope"}])
+                                  {"thickness_model": "carbon black Kruk/Jaroniec/Gadkaree"}, {"t_limits": [0.3, 0.8]}, {"thickness_model": "nope"},
+                                  {"thickness_model": "@ISO:%d" % r.get("n2_ref", i)}])     # an isotherm object as thickness model
         elif what == "alpha_s":
             q["ref"] = r.get("n2_ref", i)
             q["kw"] = rng.choice([{}, {"reference_area": "langmuir"}, {"reducing_pressure": 0.3}, {"reference_area": 120.0}])
@@ -164,7 +165,8 @@ def gen_query(rng, world, heavy_w):
             q["kw"] = rng.choice([{}, {"psd_model": "BJH"}, {"psd_model": "DH"}, {"branch": "ads"}, {"pore_geometry": "slit"},
                                   {"thickness_model": "Halsey"}, {"kelvin_model": "Kelvin-KJS", "branch": "ads"}, {"psd_model": "nope"},
                                   {"pore_geometry": "sphere"}, {"meniscus_geometry": "hemispherical"}, {"meniscus_geometry": "cylindrical", "branch": "ads"},
-                                  {"p_limits": [0.2, 0.9]}, {"psd_model": "BJH", "thickness_model": "SiO2 Jaroniec/Kruk/Olivier"}])
+                                  {"p_limits": [0.2, 0.9]}, {"psd_model": "BJH", "thickness_model": "SiO2 Jaroniec/Kruk/Olivier"},
+                                  {"thickness_model": "@ISO:%d" % r.get("n2_ref", i), "branch": "ads"}])
         elif what == "psd_microporous":
             ar_like = {"molecular_diameter": 0.34, "polarizability": 1.63e-3, "magnetic_susceptibility": 3.25e-8,
                        "surface_density": 8.52e18, "liquid_density": 1.4, "adsorbate_molar_mass": 39.948}
@@ -283,6 +285,16 @@ def gen_related(rng, world, prev):
         solid = {"molecular_diameter": 0.31, "polarizability": 1.9e-3, "magnetic_susceptibility": 9.5e-8, "surface_density": 2.4e19}
         q["kw"] = rng.choice([{}, {"adsorbate_model": ar_like}, {"material_model": solid}, {"adsorbate_model": ar_like, "material_model": solid},
                               {"psd_model": "RY"}, {"material_model": "AlSiOxideIon"}, dict(prev.get("kw") or {})])
+        return q
+    if g == "export":
+        # another export right after this one (text produced by one must not depend on the other having run)
+        q["q"] = rng.choice([x for x in ["to_dict", "to_json", "to_csv", "to_aif", "str", "repr"] if x != prev["q"]])
+        q.pop("kw", None)
+        npmeta = [i for i, sp in enumerate(world["isos"]) if any(k.endswith("__np") for k in (sp.get("meta") or {}))]
+        if npmeta and rng.random() < 0.7:
+            q["iso"] = rng.choice(npmeta)          # metadata holding numpy scalars: their text form is what may differ
+        elif rng.random() < 0.5 and "n2_main" in world["roles"]:
+            q["iso"] = world["roles"]["n2_main"]
         return q
     if g == "model_query":
         if isinstance(prev["x"], list):
@@ -443,10 +455,14 @@ def exec_query(objs, q, scratch):
                 val = iso.loading(points=q.get("points", 60), **{k: v for k, v in _kw(q).items() if k.startswith("loading")})
         elif q["g"] == "n2char":
             iso = objs[q["iso"]]
+            kw = _kw(q)
+            tm = kw.get("thickness_model")
+            if isinstance(tm, str) and tm.startswith("@ISO:"):
+                kw["thickness_model"] = objs[int(tm[5:])]
             if name == "alpha_s":
-                val = pgc.alpha_s(iso, objs[q["ref"]], **_kw(q))
+                val = pgc.alpha_s(iso, objs[q["ref"]], **kw)
             else:
-                val = getattr(pgc, name)(iso, **_kw(q))
+                val = getattr(pgc, name)(iso, **kw)
         elif q["g"] == "enth":
             if name == "isosteric_enthalpy":
                 val = pgc.isosteric_enthalpy([objs[i] for i in q["isos"]], **_kw(q))
@@ -706,7 +722,8 @@ def execute(ctx, world, rng=None, steps=None, cfg=None):
                     pending = copy.deepcopy(prev)
                 elif cfg["mutators"] and rng.random() < 0.12:
                     q = gen_mutator(rng, world)
-                elif prev is not None and prev["g"] in ("interp", "spread", "adsorbate", "n2char", "fit", "model_query") and rng.random() < cfg["related_p"]:
+                elif prev is not None and prev["g"] in ("interp", "spread", "adsorbate", "n2char", "fit", "model_query", "export") \
+                        and rng.random() < cfg["related_p"]:
                     q = gen_related(rng, world, prev)
                 else:
                     q = gen_query(rng, world, cfg["heavy_w"])
